@@ -6,9 +6,11 @@ package c11
 
 import (
 	"bytes"
+	"flag"
 	"math/big"
 	"os"
 	"runtime/debug"
+	"sync/atomic"
 	"testing"
 
 	"github.com/btcsuite/btcd/btcec/v2"
@@ -24,9 +26,16 @@ func TestMain(m *testing.M) {
 	debug.SetGCPercent(800)
 	code := m.Run()
 	scratch.Sweep()
-	ev.Flush()
+	// Under `go test -fuzz` the coordinating process executes no case itself;
+	// its (empty) statistics must not overwrite those of the workers.
+	if f := flag.Lookup("test.fuzz"); f == nil || f.Value.String() == "" || fuzzCases.Load() > 0 {
+		ev.Flush()
+	}
 	os.Exit(code)
 }
+
+// fuzzCases counts the inputs executed by native fuzz targets in this process.
+var fuzzCases atomic.Int64
 
 // ---------------------------------------------------------------------------
 // constants and small helpers
